@@ -296,7 +296,7 @@ RECV_CFG = """SPECIFICATION Spec
 CONSTANTS
   ForeignPaths = {"doc", "keep", "tool::x"}
   EMIT = TRUE
-INVARIANTS NoPanic C02_OneToOne C01_Mapping C03_Spans C08_Forward C08_Merge BigStepAgrees EmitDone
+INVARIANTS NoPanic C02_OneToOne C01_Mapping C03_Spans C17_Suggest C08_Forward C08_Merge BigStepAgrees EmitDone
 CHECK_DEADLOCK FALSE
 """
 
@@ -308,7 +308,8 @@ def gen_corpus(run, focus, tier=None):
     os.makedirs(os.path.dirname(rs), exist_ok=True)
     import subprocess
     p = subprocess.run(["python3", os.path.join(vlib.VERIF, "tools", "gen_corpus.py"), "--seed", str(vlib.seed()),
-                        "--tier", tier or run.tier, "--focus", focus, "--ndjson", nd, "--rs", rs],
+                        "--tier", tier or run.tier, "--focus", focus, "--ndjson", nd, "--rs", rs,
+                        "--names", run.path("names_%s.json" % focus)],
                        stdout=subprocess.PIPE, stderr=subprocess.PIPE, text=True)
     if p.returncode != 0:
         raise ToolError("gen_corpus failed: " + p.stderr[-2000:])
@@ -318,18 +319,21 @@ def gen_corpus(run, focus, tier=None):
     return nd
 
 
-def receiver_stage(run, focus, classes, selftest, what):
+def receiver_stage(run, focus, classes, selftest, what, suggest=True, binary=None):
     """TLC over the focus corpus (all invariants), replay every behaviour on the derived receivers,
     keep the property-level mismatches whose class is in `classes`."""
     nd = gen_corpus(run, focus)
     run.build()
-    res = run.tlc("MC_Receiver", RECV_CFG, "recv_" + focus, workers=8, env={"CORPUS": nd}, timeout=3000)
+    sims = run.path("sims_%s.ndjson" % focus)
+    run.vh("simtable", run.path("names_%s.json" % focus), sims)      # strsim::jaro_winkler, the metric the code delegates to
+    res = run.tlc("MC_Receiver", RECV_CFG, "recv_" + focus, workers=8,
+                  env={"CORPUS": nd, "SIMS": sims, "SUGGEST": "on" if suggest else "off"}, timeout=3000)
     if not res["ok"]:
         # the operational machine disagrees with the declarative reading of the property on some input:
         # the machine is bound to the code by replay, so this is reported with TLC's own counterexample
         tail = run.tlc_tail(res, 60)
         raise ToolError("TLC: the receiver machine violates a declarative invariant (%s):\n%s" % (what, tail[-3000:]))
-    r = run.vh("replay", res["out"], binary=VHC, timeout=3000)
+    r = run.vh("replay", res["out"], binary=binary or VHC, timeout=3000)
     keep = [m for m in r.get("prop", []) if set(m["classes"]) & set(classes)]
     dropped = r.get("prop_mismatch", 0) - len(keep)
     r2 = dict(r, prop=keep, prop_mismatch=len(keep))
@@ -489,3 +493,29 @@ def c07(run, selftest=True):
     run.assumptions = RECV_ASSUME + ["a panic inside the code under test is caught with catch_unwind and reported as a violation with the input as replay file"]
     return run.finish("model_checking", RECV_RULE + " For C07 the inputs include bodies that are not meta syntax at every depth, bare / name-value attributes, "
                       "flags in every form, and receivers whose attrs member has nothing to receive; only panics count.")
+
+
+@plan("C17")
+def c17(run, selftest=True):
+    # feature `suggestions` on: TLC decides which suggestion each unknown name gets (C17_Suggest) from the similarity
+    # table the harness computes with strsim; the real parser must agree, and the suggested name must really be accepted
+    receiver_stage(run, "suggest", {"alt"}, selftest, "C17 suggestions")
+    if run.tier != "quick":
+        receiver_stage(run, "enum", {"alt"}, False, "C17 suggestions (enum roots)")
+        receiver_stage(run, "struct", {"alt"}, False, "C17 suggestions (struct roots)")
+    # feature off: same errors, no suggestion anywhere
+    import subprocess
+    env = dict(os.environ, CARGO_NET_OFFLINE="true")
+    p = subprocess.run(["cargo", "build", "--offline", "--quiet", "--no-default-features", "--target-dir", "target-nosug", "--bin", "vhc"],
+                       cwd=vlib.HARNESS, env=env, stdout=subprocess.PIPE, stderr=subprocess.STDOUT, text=True)
+    if p.returncode != 0:
+        raise ToolError("harness build without the suggestions feature failed:\n" + "\n".join(p.stdout.splitlines()[-30:]))
+    receiver_stage(run, "suggest", {"alt", "leaves"}, False, "C17 suggestions disabled", suggest=False,
+                   binary=os.path.join(vlib.HARNESS, "target-nosug", "debug", "vhc"))
+    run.assumptions = RECV_ASSUME + ["similarity is an input table: dense ranks and the >0.8 bit of strsim::jaro_winkler (the metric darling delegates to), computed by the harness"]
+    return run.finish("model_checking",
+                      "roots of the corpus with skip / rename / flatten chains / nested receivers / enums; inputs: names at edit distance 1-2 from every own, skipped, "
+                      "flatten-member, parent and variant name, placed at every level. TLC checks that the machine's suggestion is one of the best eligible names of the "
+                      "declarative side (never a skipped or flatten member, parent names only for names the flatten member received directly) or none; the real parser's "
+                      "suggestion is compared with that set, the suggested name is re-submitted and must not be rejected as unknown, and the whole run is repeated with the "
+                      "suggestions feature disabled (no suggestion anywhere, same leaves).")
